@@ -18,7 +18,8 @@ type c07IntegArg struct {
 	Key     string `json:"key"`
 	RealTx  bool   `json:"real_tx"`
 	Name    string `json:"name"`
-	Outcome string `json:"callee_outcome"`
+	Outcome string            `json:"callee_outcome"`
+	Stale   map[string]string `json:"stale,omitempty"`
 }
 
 type c07IntegRes struct {
@@ -104,6 +105,17 @@ func runC07Integ(r *vc.Run, w *world.World, ch *vc.Child) {
 		for _, oc := range []string{"nil", "error"} {
 			add(c07IntegArg{Kind: kind, Side: "roundtrip", RealTx: true, Outcome: oc})
 		}
+		// a middle service: its outbound carrier already holds what it received from upstream (a different, stale xid)
+		if kind != "gin" {
+			stales := []map[string]string{{"tx_xid": "10.0.0.9:8091:555"}, {"TX_XID": "10.0.0.9:8091:555", "other": "v"}, {"seata_xid": "10.0.0.9:8091:555", "tx_xid": "10.0.0.9:8091:556"}}
+			if kind == "dubbo" {
+				stales = append(stales, map[string]string{"SEATA_XID": "10.0.0.9:8091:555"}, map[string]string{"TX_XID": "10.0.0.9:8091:555", "SEATA_XID": "10.0.0.9:8091:557"})
+			}
+			for _, st := range stales {
+				add(c07IntegArg{Kind: kind, Side: "roundtrip", Xid: "127.0.0.1:8091:777", Outcome: "nil", Stale: st})
+				add(c07IntegArg{Kind: kind, Side: "roundtrip", RealTx: true, Outcome: "nil", Stale: st})
+			}
+		}
 	}
 	var wg sync.WaitGroup
 	sem := make(chan struct{}, 16)
@@ -120,7 +132,7 @@ func runC07Integ(r *vc.Run, w *world.World, ch *vc.Child) {
 	evs := w.TC.Events()
 	for _, j := range jobs {
 		a, res := j.a, j.res
-		shape := fmt.Sprintf("integ|%s|%s|key=%s|xid=%s|real=%v|callee=%s", a.Kind, a.Side, a.Key, xidClass(a.Xid), a.RealTx, a.Outcome)
+		shape := fmt.Sprintf("integ|%s|%s|key=%s|xid=%s|real=%v|callee=%s|stale=%d", a.Kind, a.Side, a.Key, xidClass(a.Xid), a.RealTx, a.Outcome, len(a.Stale))
 		feat := map[string]string{"kind": a.Kind, "side": a.Side, "key": a.Key, "xid_class": xidClass(a.Xid), "real_tx": fmt.Sprint(a.RealTx)}
 		if j.err != nil {
 			r.Inconc(a.Case + ": control call failed: " + j.err.Error())
